@@ -707,7 +707,8 @@ def evaluate__parse_json_functions(self: XPathFunction, context: ta.ContextType 
             else:
                 with pathlib.Path(href).open() as fp:
                     json_text = fp.read()
-        except IOError:
+        except (IOError, ValueError):
+            # an I/O error or an invalid URI
             raise self.error('FOUT1170') from None
 
     else:
